@@ -87,6 +87,41 @@ PROPS = {
         "assumptions": ["BooksQ: BankSane (LockedCoins never negative: SDK contract), EntQ, and governance has not changed the enterprise denomination (known finding C14/denom-change)",
                         "genesis: bank-lite well-formed, no vesting module accounts, empty enterprise escrow"],
     },
+    "C14": {
+        "chain": [chain("all", 24, 25, 300, 40), chain("ent", 16, 25, 200, 40), chain("gov", 16, 25, 200, 40), chain("quorum", 8, 25, 100, 40), chain("stream", 8, 20, 100, 30), chain("authz", 8, 20, 100, 30)],
+        "corpus": ["witness", "regress", "known"],
+        "relevant": rel_all,
+        "level_text": "Proof: c14_begin_block_never_panics (in every state of every run whose queued orders leave room below 2^255 the enterprise BeginBlocker - completion pass then tally - returns without a panic at any block time: every explicit panic of blocker.go and every panicking primitive reachable from it is dead under the invariants), c14_tally_never_panics, c14_end_block_and_commit_total, c14_failed_tx_changes_nothing_and_multimsg_atomic (after DeliverTx the state is the state before, or the ante state - differing only by fee balances and the locked/spent books - with none of the messages' effects, or the state after all messages), c14_runMsgs_fails_if_any_message_fails. The two history assumptions of the totality theorem are the two known findings (enterprise denomination changed by governance while an order is pending; amounts summing beyond 2^255), each replayed on the real app every run.",
+        "level_note": ENT_NOTE + " Panics are values of the model (Except.error (.panic ..)); BaseApp.runTx's per-transaction recovery and cache-wrapped ante/message execution are modelled by deliverTx and compared with the real app on every generated transaction (outcome class ok/err/panic is a hard comparison). SDK-module block hooks are outside the model; the harness recovers around every ABCI call and reports a halt as 'B panic' / 'E panic'.",
+        "assumptions": ["BooksQ as in C04 (includes: enterprise denomination unchanged - known finding)", "BlockRoom: balances, supply and total locked plus the queued order amounts stay below 2^255 (known finding for amounts beyond)",
+                        "enterprise denomination is a valid denom (C16)"],
+    },
+    "C13": {
+        "chain": [chain("signer", 32, 25, 400, 40), chain("authz", 16, 20, 200, 30), chain("all", 16, 25, 200, 40), chain("gov", 8, 20, 100, 30)],
+        "corpus": ["witness", "regress", "known"],
+        "relevant": rel_all,
+        "level_text": "Proof: c13_effect_requires_entitled_signer (for each of the message types a handler succeeds only if the account in the message's signer field is the entitled party: whitelisted purchaser, current enterprise signer, registered owner, stream sender / receiver, gov authority), c13_signer_fields (GetSigners table regenerated from the source), c13_tx_binds_signers (the composed ante chain admits a transaction only with exactly the GetSigners of its top-level messages as valid signatures), c13_nested_requires_grant_from_signer, c13_executed_messages_are_signed (every executed message of every run is signed by a key holder or the gov module), c13_params_only_by_governance.",
+        "level_note": "Theorems are about the Lean model of the message servers, the SDK message router (ValidateBasic before every handler), authz dispatch and the composed ante chain; GetSigners fields and the decorator order are regenerated from the source every run. Signature cryptography is abstracted to a per-transaction flag (valid / wrong key / wrong sequence) that the harness realises with real secp256k1 signatures. The tie is differential: every message type x every scenario account as signer and as named address on the real app (signer focus) vs. the compiled model, with whole-state digests after every block; a rejected message leaves the state digest unchanged because both sides print it.",
+        "assumptions": ["nobody holds a key for a module-account address (hash pre-image; cryptographic assumption)",
+                        "delegation through authz grants given by the entitled party counts as that party's signature (DESIGN.md §8 C13)"],
+    },
+    "C05": {
+        "chain": [chain("fees", 32, 25, 400, 40), chain("ent", 16, 25, 200, 40), chain("all", 16, 25, 200, 40), chain("signer", 8, 20, 100, 30)],
+        "corpus": ["witness", "regress", "known"],
+        "relevant": rel_kinds(("I", "K", "B", "E", "D ent.locked", "D ent.spent", "D ent.total", "D bank.bal", "D bank.fees", "C", "R"), lambda k: True),
+        "level_text": "Proof: c05_locked_moves_only_by_fee_unlock_or_completion (over every elementary step of every run the locked/spent books change only by an order completion or by the ante unlock for a transaction with a top-level WRKChain/BEACON message and a locked payer: locked - k, spent + k, 0 < k <= locked, k = min(fee in the enterprise denomination, locked) for a valid fee), c05_fee_of_admitted_module_tx_is_valid, c05_rejected_tx_changes_nothing, c05_completion_keeps_purchaser_balances_partial (base accounts); the full statement is FALSE of the code for vesting purchasers and for fee granters: c05_vesting_purchaser_spendable_rises and c05_fee_granter_pays_while_payer_keeps_unlocked prove the negation on concrete runs (known findings, replayed on the real app every run).",
+        "level_note": ENT_NOTE + " Bank-lite models delayed-vesting accounts (TrackDelegation/TrackUndelegation, LockedCoins, SpendableCoins) and the basic fee allowance; both are modelled SDK behaviour validated by the correspondence runs.",
+        "assumptions": ["BooksQ as in C04", "spendable = balance for base accounts (SDK SpendableCoins contract)"],
+    },
+    "C06": {
+        "chain": [chain("fees", 32, 25, 400, 40), chain("all", 16, 25, 200, 40), chain("authz", 8, 20, 100, 30), chain("gov", 8, 20, 100, 30)],
+        "pure": [{"kinds": ["coins"], Q: 1000, T: 50000}],
+        "corpus": ["witness", "regress", "known"],
+        "relevant": rel_kinds(("I", "K", "B", "E", "D wrk.params", "D bcn.params", "C"), lambda k: is_reg(k)),
+        "level_text": "Proof: c06_admitted_pays_exact_sum (a transaction with a top-level operation of a module is admitted by CheckTx only if the amount it offers in the module's fee denomination equals exactly the sum of the parameterised fees of its top-level operations of that module, whatever other denominations accompany it), c06_payer_can_cover, c06_exact_fee_partial (the full statement for plain transactions: operations at the top level, one module); the full statement is FALSE of the code for mixed-module and authz-wrapped transactions: c06_mixed_modules_admitted_with_one_fee and c06_nested_operation_admitted_free prove the negation on concrete admitted transactions (known findings, replayed on the real app every run).",
+        "level_note": "Theorems are about the Lean model of the two fee decorators inside the composed ante chain, whose decorator order is regenerated from ante/ante.go on every run. The tie to the code is differential: generated CHECK probes after every commit on the real app (CheckTx of the composed application) vs. the compiled model, plus an independent fee oracle on the implementation's answers. The coin-set comparison defect (extra fee denomination let an under-paid tx through) was repaired by a fix: commit; the two remaining gaps are recorded in KNOWN_FINDINGS.txt.",
+        "assumptions": ["fee parameters and slot counts are uint64 values (protobuf); per-slot fee >= 1 (Params.Validate)"],
+    },
     "C02": {
         "chain": [chain("ent", 24, 25, 300, 40), chain("all", 16, 25, 200, 40), chain("authz", 8, 20, 100, 30), chain("gov", 8, 20, 100, 30)],
         "corpus": ["witness", "regress", "known"],
